@@ -110,6 +110,15 @@ pub fn configs_c03(tier: Tier) -> Vec<Box<dyn Config>> {
         let l = format!("{}-release", h.label());
         v.push(Box::new(BfsConfig::new(l, h, Limits { max_wall_s: 60.0, ..Default::default() })));
     }
+    // element sizes whose bucket array needs padding: every block goes back with the layout it was requested with
+    for coll in [Coll::Set, Coll::Map, Coll::Table] {
+        let h = LayHarness::<S3>::new(coll, Plan::Seq, if q { 4 } else { 6 }, false);
+        let l = format!("{}-release", h.label());
+        v.push(Box::new(BfsConfig::new(l, h, Limits { max_wall_s: 60.0, ..Default::default() })));
+    }
+    let h = LayHarness::<S6>::new(Coll::Set, Plan::Zero, if q { 4 } else { 6 }, false);
+    let l = format!("{}-release", h.label());
+    v.push(Box::new(BfsConfig::new(l, h, Limits { max_wall_s: 60.0, ..Default::default() })));
     // zero-sized elements with a construction / clone / drop ledger
     v.push(Box::new(ZstTables { tier }));
     v
